@@ -236,7 +236,7 @@ def spec_eval(bodies, name="run", workers=None, timeout=1800, max_steps=None):
     with open(pf, "w") as f:
         for b in bodies:
             f.write(json.dumps({"body": b}, separators=(",", ":")) + "\n")
-    rc, lines = tlc("SeedRun", env={"SEED_PROGS": pf}, workers=workers, timeout=timeout,
+    rc, lines = tlc("SeedRun", env={"SEED_PROGS": pf}, workers=workers or 8, timeout=min(timeout, 900),
                     metaname="run-" + name)
     outs = [None] * len(bodies)
     for o in tagged(lines, "OUTCOME"):
